@@ -266,3 +266,164 @@ def unit_solve_sylvester_KPM(nsub, with_aux, timeout_ms=20000):
     return run_unit(f"block_diagonalization:solve_sylvester_KPM[{nsub} explicit subspaces{',auxiliary vectors' if with_aux else ''}]", harness,
                     functions=[("block_diagonalization", "solve_sylvester_KPM"), ("block_diagonalization", "solve_sylvester_KPM/solve_sylvester"),
                                ("block_diagonalization", "solve_sylvester_KPM/solve_sylvester_kpm")], timeout_ms=timeout_ms)
+
+
+# ==================================================================================================
+# kpm.rescale: the affine map that brings the spectrum into (-1, 1)
+#   returns ((h - b 1) / a, (a, b)) with a = |lmax - lmin| / (2 - eps), b = (lmax + lmin) / 2;
+#   every eigenvalue lambda with lmin <= lambda <= lmax is mapped to (lambda - b) / a in [-1 + eps/2, 1 - eps/2];
+#   computed bounds (sparse eigsh, assumed to bracket the spectrum) are only ever widened by `lower_bounds`; a spectrum consisting of one value is rejected;
+#   the Hamiltonian must be a dense array or sparse.
+# ==================================================================================================
+
+class RealV(Model):
+    """a real scalar with z3 semantics (arithmetic, comparisons)"""
+
+    def __init__(self, e):
+        self.e = e if isinstance(e, z3.ExprRef) else z3.RealVal(e)
+
+    @staticmethod
+    def of(x):
+        if isinstance(x, RealV):
+            return x.e
+        if isinstance(x, bool):
+            raise Unsupported("bool in real arithmetic")
+        if isinstance(x, (int, float)):
+            return z3.RealVal(repr(x) if isinstance(x, float) else x)
+        if isinstance(x, SI):
+            return z3.ToReal(x.e)
+        raise Unsupported(f"real arithmetic with {x!r}")
+
+    def m_binop(self, eng, op, other, reflected):
+        if isinstance(other, T):
+            return NotImplemented
+        o = RealV.of(other)
+        l, r = (o, self.e) if reflected else (self.e, o)
+        nm = type(op).__name__
+        if nm == "Add":
+            return RealV(l + r)
+        if nm == "Sub":
+            return RealV(l - r)
+        if nm == "Mult":
+            return RealV(l * r)
+        if nm == "Div":
+            eng.oblige(f"no-division-by-zero@{eng.site()}", r != 0)
+            return RealV(l / r)
+        cmp = {"Lt": l < r, "LtE": l <= r, "Gt": l > r, "GtE": l >= r, "Eq": l == r, "NotEq": l != r}.get(nm)
+        if cmp is not None:
+            return SB(cmp)
+        raise Unsupported(f"real {nm}")
+
+    def m_unop(self, eng, op):
+        if type(op).__name__ == "USub":
+            return RealV(-self.e)
+        raise Unsupported("unary op on a real")
+
+
+def _rabs(e, x):
+    v = RealV.of(x)
+    return RealV(z3.If(v >= 0, v, -v))
+
+
+def unit_rescale(kind, bounds_given, with_lower_bounds=False, timeout_ms=20000):
+    """kind: 'dense' | 'sparse' | 'other'"""
+    node = frontend.find(MODULE, "rescale")
+
+    def harness(eng):
+        eps = eng.fresh("eps", "real")
+        eng.assume(z3.And(eps > 0, eps < 1))
+        lo, hi = eng.fresh("lmin", "real"), eng.fresh("lmax", "real")      # supplied bounds or the answers of eigsh
+        lam = eng.fresh("eigenvalue", "real")
+        lb0, lb1 = eng.fresh("lower_bound_0", "real"), eng.fresh("lower_bound_1", "real")
+        eng.assume(lb0 <= lb1)
+        calls = []
+
+        class H(T):
+            def __init__(s):
+                super().__init__("h")
+                s.kinds = ("ndarray",) if kind == "dense" else (("sparse",) if kind == "sparse" else ("list",))
+                s.shape = STup([SI(eng.fresh("n")), SI(eng.fresh("n2"))])
+
+            def m_binop(s, e, op, other, reflected):
+                return T(type(op).__name__, *((other, s) if reflected else (s, other)))
+        h = H()
+
+        class Scaled(T):
+            """b * identity"""
+            pass
+
+        def eigsh(e, ham, k=None, which=None, return_eigenvectors=True, tol=None, **kw):
+            calls.append((ham, k, which, return_eigenvectors, tol))
+            v = {"LA": hi, "SA": lo}.get(which)
+            if v is None:
+                raise Unsupported(f"eigsh which={which}")
+            return STup([RealV(v)])
+        ident = T("identity")
+
+        class Ident(T):
+            def m_binop(s, e, op, other, reflected):
+                if type(op).__name__ == "Mult" and isinstance(other, RealV):
+                    return T("scaled_identity", other)
+                return super().m_binop(e, op, other, reflected)
+
+        class TT(T):
+            def m_binop(s, e, op, other, reflected):
+                if isinstance(other, RealV):
+                    return TT(type(op).__name__, *((other, s) if reflected else (s, other)))
+                return TT(type(op).__name__, *((other, s) if reflected else (s, other)))
+        h.m_binop = lambda e, op, other, reflected: TT(type(op).__name__, *((other, h) if reflected else (h, other)))
+        eng.globals.update({
+            "np": Namespace("np", {"abs": Builtin("abs", _rabs), "ndarray": TypeObj("ndarray"), "eye": Builtin("eye", lambda e, m: Ident("identity"))}),
+            "abs": Builtin("abs", _rabs),
+            "min": Builtin("min", lambda e, a, b: RealV(z3.If(RealV.of(a) <= RealV.of(b), RealV.of(a), RealV.of(b)))),
+            "max": Builtin("max", lambda e, a, b: RealV(z3.If(RealV.of(a) >= RealV.of(b), RealV.of(a), RealV.of(b)))),
+            "sparse": Namespace("sparse", {"issparse": Builtin("issparse", lambda e, x: kind == "sparse"), "identity": Builtin("identity", lambda e, m, format=None: Ident("identity")),
+                                           "csr_array": Builtin("csr_array", lambda e, x: x),
+                                           "linalg": Namespace("linalg", {"eigsh": Builtin("eigsh", eigsh)})}),
+        })
+        kwargs = {"eps": RealV(eps)}
+        if bounds_given:
+            kwargs["bounds"] = STup([RealV(lo), RealV(hi)])
+        if with_lower_bounds:
+            kwargs["lower_bounds"] = STup([RealV(lb0), RealV(lb1)])
+        if bounds_given:
+            eng.assume(lo < hi)
+        try:
+            res = eng.call(Closure(node, Env(None, {}), "rescale"), [h], kwargs)
+        except PyRaise as pr:
+            if pr.exc.cls == "TypeError":
+                return eng.oblige("only-dense-or-sparse-hamiltonians", z3.BoolVal(kind == "other"))
+            eng.oblige("raises-ValueError-only-for-a-degenerate-spectrum", z3.And(z3.BoolVal(pr.exc.cls == "ValueError" and not bounds_given), hi - lo <= z3.If(hi + lo >= 0, hi + lo, -(hi + lo)) * (eps / 2) / 2),
+                       detail=pr.exc.cls)
+            return
+        eng.oblige("other-types-are-rejected", z3.BoolVal(kind != "other"))
+        r = eng.as_seq(res)
+        ab = eng.as_seq(r.items[1])
+        a, b = RealV.of(ab.items[0]), RealV.of(ab.items[1])
+        # effective bounds
+        if bounds_given:
+            elo, ehi = lo, hi
+        else:
+            eng.oblige("bounds-computed-for-this-hamiltonian-largest-and-smallest-algebraic", z3.BoolVal(len(calls) == 2 and all(c[0] is h and c[1] == 1 and c[3] is False for c in calls)
+                                                                                                 and {c[2] for c in calls} == {"LA", "SA"}))
+            elo = z3.If(z3.And(z3.BoolVal(with_lower_bounds), lb0 < lo), lb0, lo)
+            ehi = z3.If(z3.And(z3.BoolVal(with_lower_bounds), lb1 > hi), lb1, hi)
+        eng.oblige_nra("a-is-the-bandwidth-over-2-minus-eps", a * (2 - eps) == z3.If(ehi >= elo, ehi - elo, elo - ehi))
+        eng.oblige_nra("b-is-the-centre-of-the-band", 2 * b == ehi + elo)
+        eng.oblige_nra("a-is-positive", a > 0)
+        eng.oblige_nra("every-eigenvalue-inside-the-bounds-is-mapped-into-the-open-unit-interval",
+                       z3.Implies(z3.And(elo <= lam, lam <= ehi), z3.And((lam - b) / a >= -1 + eps / 2, (lam - b) / a <= 1 - eps / 2)),
+                       detail="(lambda - b) / a in [-1 + eps/2, 1 - eps/2] for lmin <= lambda <= lmax")
+        if with_lower_bounds and not bounds_given:
+            eng.oblige_nra("lower_bounds-only-widen-the-interval", z3.And(elo <= lo, ehi >= hi, elo <= lb0, ehi >= lb1))
+        want = ("Div", ("Sub", "h", ("scaled_identity",)))
+        got = r.items[0]
+        ok = isinstance(got, T) and got.head == "Div" and isinstance(got.args[0], T) and got.args[0].head == "Sub" and got.args[0].args[0] is h \
+            and isinstance(got.args[0].args[1], T) and got.args[0].args[1].head in ("scaled_identity", "Mult")
+        eng.oblige("rescaled-hamiltonian-is-(h - b 1)/a", z3.BoolVal(ok), detail=repr(got)[:200])
+        if ok:
+            sub = got.args[0].args[1]
+            bb = sub.args[0] if sub.head == "scaled_identity" else next((x for x in sub.args if isinstance(x, RealV)), None)
+            eng.oblige_nra("shift-is-b-and-scale-is-a", z3.And(RealV.of(bb) == b, RealV.of(got.args[1]) == a) if isinstance(bb, RealV) and isinstance(got.args[1], RealV) else z3.BoolVal(False))
+    return run_unit(f"kpm:rescale[{kind},{'bounds given' if bounds_given else 'bounds computed'}{',lower_bounds' if with_lower_bounds else ''}]", harness,
+                    functions=[(MODULE, "rescale")], timeout_ms=timeout_ms)
